@@ -11,4 +11,5 @@ Definition gen_ffacts : ffacts := {|
   f_park_before_wake_with := fact_drain_queue_parks_before_wake_with;
   f_requeue_before_park := fact_drain_queue_requeues_pending && fact_drain_queue_requeue_first;
   f_future_drop_inert := fact_schedfuture_drop_inert;
-  f_wake_thread_unparks_always := fact_wake_thread_unparks_always |}.
+  f_wake_thread_unparks_always := fact_wake_thread_unparks_always;
+  f_syncfuture_state_dropped_first := fact_syncfuture_field_order |}.
